@@ -36,9 +36,10 @@ type cookieCase struct {
 	Name  string   `json:"name"`
 	Value core.B   `json:"value"`
 	Extra bool     `json:"other_cookies,omitempty"`
-	Attr  string   `json:"attributes,omitempty"`           // odd but harmless attributes on the judged cookie: domain-port | domain-scheme | path-semicolon | expires-1500 | partitioned-insecure | samesite-none. A bad attribute is the attribute's problem (net/http drops or cleans it); name=value still travels
-	Junk  string   `json:"malformed_neighbours,omitempty"` // the client's Cookie line also carries elements that are no cookies (written as given: before "|" in front, after it behind); the cookies next to them are as present as ever
-	Sib   []string `json:"related_cookie_names,omitempty"` // further cookies set in the same response, before (even index) or after (odd index) the judged one; their names are prefixes / extensions of the judged name. Every one of them is read back
+	Attr  string   `json:"attributes,omitempty"`                 // odd but harmless attributes on the judged cookie: domain-port | domain-scheme | path-semicolon | expires-1500 | partitioned-insecure | samesite-none. A bad attribute is the attribute's problem (net/http drops or cleans it); name=value still travels
+	Junk  string   `json:"malformed_neighbours,omitempty"`       // the client's Cookie line also carries elements that are no cookies (written as given: before "|" in front, after it behind); the cookies next to them are as present as ever
+	Scope string   `json:"same_name_for_another_path,omitempty"` // before | after: the same response also sets a cookie of the same name for the path /elsewhere, before or after the judged one (Path=/). Two cookies with one name and different paths are two cookies: both lines reach the client, and a client asking for /get sends back the one for /
+	Sib   []string `json:"related_cookie_names,omitempty"`       // further cookies set in the same response, before (even index) or after (odd index) the judged one; their names are prefixes / extensions of the judged name. Every one of them is read back
 }
 
 func init() {
@@ -430,6 +431,9 @@ func judgeCookie(w *core.W, c *cookieCase) {
 				ctx.SetCookie(http.Cookie{Name: n, Value: fmt.Sprintf("sib %d/ö", i)})
 			}
 		}
+		if c.Scope == "before" {
+			ctx.SetCookie(http.Cookie{Name: c.Name, Value: "for elsewhere", Path: "/elsewhere"})
+		}
 		ck := http.Cookie{Name: c.Name, Value: string(c.Value), Path: "/"}
 		switch c.Attr {
 		case "domain-port":
@@ -453,6 +457,9 @@ func judgeCookie(w *core.W, c *cookieCase) {
 			ck.HttpOnly, ck.Secure = true, true
 		}
 		ctx.SetCookie(ck)
+		if c.Scope == "after" {
+			ctx.SetCookie(http.Cookie{Name: c.Name, Value: "for elsewhere", Path: "/elsewhere"})
+		}
 		// what is queued for the client is not what the client sent: reading in the same request still reads the request
 		setThenRead = ctx.Cookie(c.Name)
 		for i, n := range c.Sib {
@@ -509,6 +516,26 @@ func judgeCookie(w *core.W, c *cookieCase) {
 	}
 	// the client: parse Set-Cookie, send the cookies back
 	resp := http.Response{Header: spy.h}
+	if c.Scope != "" {
+		// every SetCookie call queues a line of its own; the client keeps the cookie for /elsewhere to itself when it
+		// asks for /get
+		n := 0
+		kept := spy.h["Set-Cookie"][:0:0]
+		for _, line := range spy.h["Set-Cookie"] {
+			one := (&http.Response{Header: http.Header{"Set-Cookie": {line}}}).Cookies()
+			if len(one) == 1 && one[0].Name == c.Name && one[0].Path == "/elsewhere" {
+				n++
+				continue
+			}
+			kept = append(kept, line)
+		}
+		if n != 1 {
+			w.Violate("cookie", c, fmt.Sprintf("the response set cookie %q for / and for /elsewhere (%s the other); %d Set-Cookie lines for /elsewhere reached the client (Set-Cookie: %q)", c.Name, c.Scope, n, spy.h["Set-Cookie"]))
+			return
+		}
+		resp = http.Response{Header: http.Header{"Set-Cookie": kept}}
+		w.Count("cookie-same-name-for-another-path")
+	}
 	req := &http.Request{Method: "GET", URL: &url.URL{Path: "/get"}, Header: http.Header{}}
 	sent := 0
 	upper := strings.ToUpper(c.Name)
@@ -599,7 +626,7 @@ func judgeCookie(w *core.W, c *cookieCase) {
 }
 
 func runC18(r *core.Run) {
-	r.Rule("(a) every accessor (Query, QueryTrim, QueryStrings, QueryUnescape, QueryBool, QueryInt, QueryInt64, QueryFloat64 each with and without default; Param, ParamInt, ParamInt64, Params) reads a request whose query string is built from hostile values (absent, key only, empty, several values, raw or escaped: 20-digit numbers, 0x10, 1_0, nan, inf, 1e999, padded, separators + % ; = &, malformed escapes, non-UTF-8, NUL, full-width digits) or arbitrary bytes, and whose bind parameter is a hostile segment. Oracle: the statement's rule written with strconv / net/url on the oracle side. (b) cookie round trip SetCookie -> Set-Cookie header -> client Cookie header -> Cookie(name) for all 256 single bytes, all two-byte combinations of a separator alphabet and random byte strings, a fifth of which are sent in an already encoded form (query-escaped once or twice, path-escaped, lower-cased escapes, every byte escaped, base64, Go-quoted) - a value like any other. non-trivial = distinct (value class, query string, segment) and distinct cookie values")
+	r.Rule("(a) every accessor (Query, QueryTrim, QueryStrings, QueryUnescape, QueryBool, QueryInt, QueryInt64, QueryFloat64 each with and without default; Param, ParamInt, ParamInt64, Params) reads a request whose query string is built from hostile values (absent, key only, empty, several values, raw or escaped: 20-digit numbers, 0x10, 1_0, nan, inf, 1e999, padded, separators + % ; = &, malformed escapes, non-UTF-8, NUL, full-width digits) or arbitrary bytes, and whose bind parameter is a hostile segment. Oracle: the statement's rule written with strconv / net/url on the oracle side. (b) cookie round trip SetCookie -> Set-Cookie header -> client Cookie header -> Cookie(name) for all 256 single bytes, all two-byte combinations of a separator alphabet and random byte strings, a fifth of which are sent in an already encoded form (query-escaped once or twice, path-escaped, lower-cased escapes, every byte escaped, base64, Go-quoted) - a value like any other; one response in six also sets a cookie of the same name for another path, which is a cookie of its own. non-trivial = distinct (value class, query string, segment) and distinct cookie values")
 	r.Assume("`present` is what net/url parses out of the raw query; a QueryStrings key that is present returns its list even if the only value is empty (pinned by the suite)")
 	c18Canaries(r)
 	r.Parallel("acc", r.N(150000, 10000000), func(w *core.W, rng *rand.Rand, i int) {
@@ -677,6 +704,9 @@ func runC18(r *core.Run) {
 			}
 			c.Value = core.B(v)
 		}
+		if rng.Intn(6) == 0 && c.Attr != "path-semicolon" {
+			c.Scope = []string{"before", "after"}[rng.Intn(2)]
+		}
 		w.Begin("cookie", c)
 		if enc != "" {
 			w.Count("cookie-value-already-encoded")
@@ -685,6 +715,7 @@ func runC18(r *core.Run) {
 		judgeCookie(w, c)
 	})
 	r.GateCounter("cookie-value-already-encoded", 1000)
+	r.GateCounter("cookie-same-name-for-another-path", 500)
 	for _, k := range []string{"class:absent", "class:empty", "class:well-formed-int", "class:well-formed-float", "class:well-formed-bool", "class:malformed", "class:out-of-range", "class:needs-escaping", "multi-valued", "form-body-parsed-before-reading", "cookie-class:empty", "cookie-class:plain", "cookie-class:separators", "cookie-class:non-ascii-or-control", "cookie-with-related-names", "requests-carrying-path-values-of-an-enclosing-mux", "cookie-absent-reads-of-related-names", "cookie-line-with-malformed-neighbours", "cookie-with-odd-attributes", "body-read:unknown", "body-read:exact", "body-read:none"} {
 		r.GateCounter(k, 20)
 	}
